@@ -67,7 +67,8 @@ def encode(v, gin=None):
   if t is tuple:
     return {'t': [encode(x, gin) for x in v]}
   if t is dict:
-    return {'d': [[encode(k, gin), encode(x, gin)] for k, x in v.items()]}
+    # dict equality ignores insertion order: canonical (sorted) item order
+    return {'d': sorted(([encode(k, gin), encode(x, gin)] for k, x in v.items()), key=lambda kv: canon(kv[0]))}
   if t in (set, frozenset):
     return {'set': sorted((encode(x, gin) for x in v), key=canon)}
   if t is Opaque:
